@@ -31,6 +31,7 @@ void Hashmaster::getFileHash(buffer64 *buffer, u8_t *hashres, const std::functio
     }
     getHash(hashblock);
   }
+  WV_GHOST(wv_hl_out = hashres;)
   getres(hashres);
 }
 /*
@@ -55,6 +56,7 @@ void Hashmaster::getStringHash(const u8_t *string, u32_t length,
           __CPROVER_decreases(nnow))
     getHash(string + (length - nnow));
   getHash(string + (length - nnow), nnow);
+  WV_GHOST(wv_hl_out = hashres;)
   getres(hashres);
 }
 
